@@ -308,7 +308,11 @@ func (c *Ctx) rulesC06(a *coreAnchors, la *LockAnalysis) {
 	fStates := c.field(pm, "WhenBinding", "States")
 	if pw := c.fn(pm + ":Subscriptions.ProcessWhen"); pw != nil && fMatched != nil && fStates != nil {
 		nm := 0
-		for i, w := range writesOfFieldIn(pw, fMatched) {
+		var mWrites []fieldWrite
+		for _, hf := range c.hostedFns(pw) {
+			mWrites = append(mWrites, writesOfFieldIn(hf, fMatched)...)
+		}
+		for i, w := range mWrites {
 			nm++
 			okg := false
 			gs := guardsOf(w.Instr.Block())
